@@ -78,6 +78,7 @@ type UnitContract struct {
 	Modifies []string
 	HasMod   bool
 	Macros   map[string]*Macro
+	Cases    []*Clause // case-split hints: every obligation may be proved separately under e and under !e
 	Loops    map[int]*LoopContract
 	ALoops   []*LoopContract // loops bound by anchor text
 	Safety   map[string][]string // kind -> tags  (div, index, uint, nofatal)
@@ -399,6 +400,13 @@ func (cs *ContractSet) parseFile(path, pkgdir string) error {
 			for _, tg := range tags {
 				cur.Tags[tg] = true
 			}
+		case strings.HasPrefix(t, "cases "):
+			txt := strings.TrimPrefix(t, "cases ")
+			e, err := parseSpecExpr(txt)
+			if err != nil {
+				return fail(l, "%v", err)
+			}
+			cur.Cases = append(cur.Cases, &Clause{Kind: "cases", Name: fmt.Sprintf("c%d", len(cur.Cases)+1), Text: txt, Expr: e, Line: l.line, File: path})
 		case strings.HasPrefix(t, "serves "):
 			for _, tg := range parseTags(strings.TrimPrefix(t, "serves ")) {
 				cur.Tags[tg] = true
